@@ -484,10 +484,22 @@ func typeOfJSONValue(v any) ExprType {
 		}
 		return &ArrayType{Elem: elem}
 	case map[string]any:
+		// Property names are case insensitive and stored in lower case. Keys which are different
+		// only in upper/lower case share one property. Their types are merged in order of the keys
+		// so that the result does not depend on random iteration order of the map.
+		keys := make([]string, 0, len(v))
+		for k := range v {
+			keys = append(keys, k)
+		}
+		sort.Strings(keys)
 		props := make(map[string]ExprType, len(v))
-		for k, v := range v {
-			// Property names are case insensitive and stored in lower case
-			props[strings.ToLower(k)] = typeOfJSONValue(v)
+		for _, k := range keys {
+			t := typeOfJSONValue(v[k])
+			l := strings.ToLower(k)
+			if p, ok := props[l]; ok {
+				t = p.Merge(t)
+			}
+			props[l] = t
 		}
 		return NewStrictObjectType(props)
 	case nil:
